@@ -62,7 +62,24 @@ def _close_discipline(p, mod, fd, c):
         t = st.parent
         while t is not None and not isinstance(t, ast.Try):
             t = getattr(t, 'parent', None)
-        if t is None or st not in t.body and not any(st in ast.walk(b) for b in t.body):
+        opened_before = False
+        if t is None:
+            # `stream, flag = open(..), True` as the last thing before the try (possibly as the tail of an if/else arm): nothing can
+            # fail between the open and the protected region
+            cur, tail_ok = st, True
+            while getattr(cur, 'parent', None) is not fd and tail_ok:
+                par_ = getattr(cur, 'parent', None)
+                if isinstance(par_, ast.If) and ((par_.body and par_.body[-1] is cur) or (par_.orelse and par_.orelse[-1] is cur)):
+                    cur = par_
+                else:
+                    tail_ok = False
+            if tail_ok and cur in fd.body and fd.body.index(cur) + 1 < len(fd.body) and isinstance(fd.body[fd.body.index(cur) + 1], ast.Try):
+                def assigns_both(stmts):
+                    return any(isinstance(s_, ast.Assign) and isinstance(s_.targets[0], ast.Tuple) and [dotted(e) for e in s_.targets[0].elts] == [svar, fvar] for s_ in stmts)
+                if cur is st or (isinstance(cur, ast.If) and assigns_both(cur.body) and assigns_both(cur.orelse)):
+                    t = fd.body[fd.body.index(cur) + 1]
+                    opened_before = True
+        if t is None or (not opened_before and st not in t.body and not any(st in ast.walk(b) for b in t.body)):
             return False, 'the file is opened outside a try/finally: an error before the end of the function leaks the descriptor'
         closes = []
         for fs in t.finalbody:
@@ -73,8 +90,8 @@ def _close_discipline(p, mod, fd, c):
         if not closes:
             return False, 'the finally block does not close `{}` under its flag `{}`'.format(svar, fvar)
         # flag and stream are pre-initialised before the try so the finally block is safe
-        pre = [s for s in fd.body if isinstance(s, ast.Assign) and s.lineno < t.lineno and isinstance(s.targets[0], ast.Tuple) and [dotted(e) for e in s.targets[0].elts] == [svar, fvar]]
-        if not pre:
+        pre = [s for s in fd.body if isinstance(s, ast.Assign) and s.pos < t.pos and isinstance(s.targets[0], ast.Tuple) and [dotted(e) for e in s.targets[0].elts] == [svar, fvar]]
+        if not pre and not opened_before:
             return None, 'stream/flag are not pre-initialised before the try'
         return True, 'opened atomically with its close-flag inside try; finally closes it under the flag'
     # idiom 3: handle stored on self, closed by finish() which the creator calls in a finally
@@ -101,7 +118,7 @@ def _close_discipline(p, mod, fd, c):
                     if attr not in tested:
                         other = sorted(t for t in tested if t and t.startswith('self.'))
                         # is the other attribute assigned before the open in the opener?
-                        later = [o for o in other if any(isinstance(z, ast.Assign) and dotted(z.targets[0]) == o and z.lineno > st.lineno for z in walk_no_nested(fd))]
+                        later = [o for o in other if any(isinstance(z, ast.Assign) and dotted(z.targets[0]) == o and z.pos > st.pos for z in walk_no_nested(fd))]
                         if later:
                             return False, '{}.{}() closes {} only when `{}` holds, but {} is assigned after the file is opened: if creating it fails (e.g. the first record cannot be decoded) the descriptor stays open'.format(cls.name, closer.name, attr, node_text(g.test, 60), later[0])
         # guard: if self.x is not None: close
@@ -187,8 +204,8 @@ def _close_discipline(p, mod, fd, c):
             if n is nxt or (bv is not None and is_false(bv)):
                 continue
             return None, 'the close flag `{}` is also assigned at line {}'.format(fvar, n.lineno)
-        pre_f = [n for n in fd.body if isinstance(n, ast.Assign) and n.lineno < t.lineno and bound_value(n, fvar) is not None and is_false(bound_value(n, fvar))]
-        pre_s = [n for n in fd.body if isinstance(n, ast.Assign) and n.lineno < t.lineno and bound_value(n, svar) is not None]
+        pre_f = [n for n in fd.body if isinstance(n, ast.Assign) and n.pos < t.pos and bound_value(n, fvar) is not None and is_false(bound_value(n, fvar))]
+        pre_s = [n for n in fd.body if isinstance(n, ast.Assign) and n.pos < t.pos and bound_value(n, svar) is not None]
         if not pre_f or not pre_s:
             return None, 'stream/flag are not pre-initialised before the try'
         return True, 'opened inside try and flagged at once; finally closes it under the flag'
